@@ -5,10 +5,9 @@ The repaired `BacktrackingNeeded` flag: `TestIfNeedBacktracking(...) || FSM.HasA
 When the trie of a type root is *not* ambiguous (`ambiguousAt rs = false`: no node has the `*` child
 together with a literal child), the search is deterministic: at every node at most one child can be
 entered, so the search without backtracking reaches the same first final state as the search with
-backtracking. The only node at which the backtracking search enters two children is one where the
-metric field is literally `*`; both are then the *same* child (the `*` child), the second visit
-differs in the captures only and finds something iff the first one does, so the first final state is
-not affected.
+backtracking. A metric field that is literally `*` is no exception: since repair 0275669 it is not
+taken for the literal transition, both searches take the single wildcard branch for it (and record
+the field as a capture), so the backtracking search never enters a child twice.
 -/
 namespace SE
 open SE.ListLemmas
@@ -16,7 +15,10 @@ open SE.ListLemmas
 theorem mem_of_mem_zipIdx' {α} {l : List α} {x : α × Nat} (h : x ∈ l.zipIdx) : x.1 ∈ l :=
   List.mem_of_getElem? (List.mem_zipIdx_iff_getElem?.mp h)
 
-/-! ### the rules found do not depend on the captures collected so far -/
+/-! ### the rules found do not depend on the captures collected so far
+
+(General facts about `dfs`; the key lemma below no longer needs them: before repair 0275669 a field that
+was literally `*` made the backtracking search visit the `*` child twice with different captures.) -/
 
 theorem dfs_map_rule_caps (rs : TRules) (bt : Bool) :
     ∀ (fields : List Bytes) (p : Pat) (caps caps' : List Bytes),
@@ -131,14 +133,13 @@ theorem dfs_head_deterministic (rs : TRules) (hna : ambiguousAt rs = false) :
     · rfl
     · split
       · rename_i hokf
+        rw [Bool.and_eq_true] at hokf
         split
-        · rename_i hoks
-          have hfd : fd = starB := okChild_star_unique hna hokf hoks
-          subst hfd
-          rw [List.head?_append, hv]
-          cases hA : dfsVisit rs true rest (p ++ [starB]) caps with
-          | nil => rw [dfsVisit_nil_caps (caps ++ [starB]) hA]; rfl
-          | cons x xs => rfl
+        · -- a literal child (`fd ≠ *`) together with the `*` child: impossible in a non-ambiguous trie
+          rename_i hoks
+          have hfd : fd = starB := okChild_star_unique hna hokf.2 hoks
+          rw [hfd] at hokf
+          simp at hokf
         · rw [List.append_nil]; exact hv _ _
       · split
         · exact hv _ _
